@@ -298,6 +298,9 @@ namespace Pistache::Tcp
                         wq.push_front(WriteEntry(std::move(deferred), bufferHolder, flags));
                         reactor()->modifyFd(key(), fd, NotifyOn::Read | NotifyOn::Write,
                                             Polling::Mode::Edge);
+                        // wait for the socket to become writable again instead of
+                        // retrying at once: the loop thread has other peers to serve
+                        stop = true;
                     }
                     // EBADF can happen when the HTTP parser, in the case of
                     // an error, closes fd before the entire request is processed.
